@@ -110,9 +110,11 @@ func localTree(root string) (*stack.Opts, []string, error) {
 	mod := filepath.Join(root, "mod")
 	gp := filepath.Join(root, "gopath")
 	files := map[string]string{
-		filepath.Join(mod, "go.mod"):                                                    "module example.com/m\n\ngo 1.20\n",
-		filepath.Join(mod, "main.go"):                                                   "package main\n\nfunc f(a int, s string, b []byte, e error, m map[string]int) {\n\tg(a)\n}\n\nfunc g(a int) {\n\tpanic(a)\n}\n\nfunc nobody() int64\n\nfunc (t *T) M(x uint8, y float64) {\n\tg(1)\n}\n\ntype T struct{}\n\nfunc main() {\n\tf(1, \"\", nil, nil, nil)\n}\n",
-		filepath.Join(mod, "broken.go"):                                                 "package main\n\nfunc broken( {\n",
+		filepath.Join(mod, "go.mod"):    "module example.com/m\n\ngo 1.20\n",
+		filepath.Join(mod, "main.go"):   "package main\n\nfunc f(a int, s string, b []byte, e error, m map[string]int) {\n\tg(a)\n}\n\nfunc g(a int) {\n\tpanic(a)\n}\n\nfunc nobody() int64\n\nfunc (t *T) M(x uint8, y float64) {\n\tg(1)\n}\n\ntype T struct{}\n\nfunc main() {\n\tf(1, \"\", nil, nil, nil)\n}\n",
+		filepath.Join(mod, "broken.go"): "package main\n\nfunc broken( {\n",
+		// accepted by go/parser, rejected by the type checker: receiver lists of length 2 and 0, a one-line function, no final newline
+		filepath.Join(mod, "odd.go"):                                                    "package main\n\nfunc (t *T, u *T) f(a int) {\n\tg(a)\n}\n\nfunc () g(a int) {\n\tpanic(a)\n}\n\nfunc (T) M(x uint8, y float64) { g(1) }\n\n\n\n\n\n\n\n\nfunc nobody(a int) { panic(a) }",
 		filepath.Join(gp, "src", "example.com", "p", "file.go"):                         "package p\n\nfunc Do(x int) {\n\tDo(x)\n}\n",
 		filepath.Join(gp, "pkg", "mod", "github.com", "foo", "bar@v1.2.3", "x", "y.go"): "package x\n\nfunc Y(a, b int) {\n}\n",
 	}
@@ -129,7 +131,7 @@ func localTree(root string) (*stack.Opts, []string, error) {
 	m := filepath.ToSlash(mod)
 	for _, ln := range []string{"1", "3", "4", "8", "11", "14", "19", "20", "21", "400", "999999999999999999", "9223372036854775807", "9223372036854775808", "9999999999999999999", "18446744073709551615", "99999999999999999999"} {
 		for _, fn := range []string{"main.f(0x1, 0xc000010000, 0x2, 0xc000020000, 0x3, 0x4, 0x0, 0x0, 0xc000030000)", "main.g(0x7)", "main.(*T).M(0xc000040000, 0x5, 0x3ff0000000000000)", "main.nobody()", "main.nobody(0x1)", "main.missing(0x1, {0x2, 0x3})", "main.f(...)", "main.f(0x1, _, ...)"} {
-			for _, file := range []string{"main.go", "broken.go", "gone.go"} {
+			for _, file := range []string{"main.go", "broken.go", "gone.go", "odd.go"} {
 				seeds = append(seeds, fmt.Sprintf("goroutine 1 [running]:\n%s\n\t%s/%s:%s +0x1d\nmain.main()\n\t%s/main.go:19 +0x2a\n", fn, m, file, ln, m))
 			}
 		}
